@@ -10,10 +10,18 @@ from vp.extract import ExtractError
 
 H = "crates/simulator/src/component/host.rs"
 V = "crates/component/src/value.rs"
+R = "crates/simulator/src/component/runtime.rs"
+A = "crates/analyzer/src/value.rs"
 
 TRUSTED = {
     r"pub struct Ex(File|PathBuf|Path)": "opaque std types fs::File / PathBuf: element types of HostContext fields the functions under contract never touch",
     r"\[usize::div_ceil\]": "O5: usize::div_ceil(x, y) = ceil(x / y) for y > 0 (checked against the real std function by the Kani job, harness words_for_*)",
+    r"pub struct (ExternalInstance|OutputBinding|Event|MaskCache|BigUint|Expression)": "E1: opaque stand-ins for types runtime.rs imports (ExternalInstance, OutputBinding, Event, MaskCache, num_bigint::BigUint, ir::Expression)",
+    r"pub fn eval\(": "O17: Expression::eval (the interpreter) outlined: returns eval_spec(expr), treated as a function of the expression at this instant",
+    r"fn vp_extend_digits": "O17: out.extend(b.iter_u64_digits()) outlined: appends the LSB-first 64-bit digits of the BigUint",
+    r"fn vp_big_nonzero": "O17: *b != BigUint::zero() outlined: some digit is non-zero",
+    r"fn vp_direct_copy": "O16: the two unsafe direct-copy arms of stage_inputs outlined; ASSUMED to write only the payload/mask words of host port idx (pointers cached by cache_port_buffers)",
+    r"uninterp spec fn": "uninterpreted: digits(BigUint), eval_spec(Expression)",
     r"fn vp_zero_fill": "O6: `v.iter_mut().for_each(|m| *m = 0)` outlined: same length, every element 0",
 }
 
@@ -23,6 +31,8 @@ CANARIES = [
     ("vp_canary_write_output", "proof fn vp_canary_write_output(c: HostContext, idx: u32, w: Seq<u64>, m: Option<Seq<u64>>) requires (idx as int) < c.ports@.len(), "
                                "c.ports@[idx as int].dir == PortDir::Output, wf_port(c.ports@[idx as int]), w.len() == c.ports@[idx as int].words@.len(), "
                                "m is Some, m.unwrap().len() == w.len(), w.len() > 1 ensures false {}"),
+    ("vp_canary_stage", "proof fn vp_canary_stage(c: RuntimeComponent) requires c.inputs@.len() >= 2, c.host.use_4state, c.inputs@[0].0 != c.inputs@[1].0, c.inputs@[0].2 > 64, "
+                        "forall|j: int| 0 <= j < c.inputs@.len() ==> stage_ok(c.host, #[trigger] c.inputs@[j]), c.inputs@[0].1 is Expr, c.inputs@[1].1 is DirectWide ensures false {}"),
     ("vp_canary_mask_top", "proof fn vp_canary_mask_top(w: Seq<u64>, width: u32) requires w.len() == nwords(width), width % 64 == 3, width > 64 ensures false {}"),
 ]
 
@@ -169,6 +179,8 @@ def verus_job(ctx, res):
 
     vf.raw("}", "impl")
 
+    stage_inputs_items(ctx, res, vf, add)
+
     # ---- crates/component/src/value.rs: the two slice-level helpers (no SmallVec involved) ------------------------------------------
     vf.raw("pub mod value {\nuse super::*;", "mod")
     f = v.item("fn", "words_for")
@@ -195,6 +207,10 @@ def verus_job(ctx, res):
     vf.raw("}", "mod")
 
     text = vf.finish()
+    anchor = "        while vp_i < self.inputs.len() {\n"
+    if text.count(anchor) != 1:
+        raise ExtractError("stage_inputs: anchor of the rewritten loop not found")
+    text = text.replace(anchor, "        while vp_i < self.inputs.len()\n" + STAGE_INV + "        {\n            broadcast use lemma_fit_all_zero;\n", 1)
     res.clauses.update({
         "words_for (host.rs, value.rs)": "ensures r == max(1, ceil(width/64)) for every u32 width",
         "HostContext::add_port_role": "ensures the new port is wf (payload and mask have words_for(width) zero words), dirty=false; all other ports and fields untouched",
@@ -208,7 +224,10 @@ def verus_job(ctx, res):
     })
     res.samples.append({"obligation": "verus:hostcopy:HostContext::svc_write_output", "contract": "see contract_clauses"})
     expect = ["words_for", "HostContext::add_port_role", "HostContext::set_input", "HostContext::set_input_masked", "HostContext::svc_port_words_len",
-              "HostContext::svc_write_output", "value::words_for", "value::mask_top_word", "lemma_mask_low", "lemma_bit_zero", "lemma_keep_top"]
+              "HostContext::svc_write_output", "value::words_for", "value::mask_top_word", "lemma_mask_low", "lemma_bit_zero", "lemma_keep_top",
+              "value_to_words_into", "value_to_mask_xz_into", "RuntimeComponent::stage_inputs", "lemma_fit_all_zero"]
+    if "is_xz" in ctx.src(R).item("fn", "stage_inputs", impl="RuntimeComponent").orig:
+        expect += ["ValueU64::is_xz", "ValueBigUint::is_xz", "Value::is_xz"]
     return VerusJob("hostcopy", text, vf, expect, canaries=CANARIES, items=items, trusted=TRUSTED, rlimit=60)
 
 
@@ -282,6 +301,88 @@ def kani_job(ctx, res):
         "Value::{from_u64,from_bits,to_port_words,to_port_mask_xz}": "result has words_for(width) words; bit (k,b) == source bit (k,b) if 64k+b < width and inside the source, else 0 (payload and mask_xz alike)",
     })
     return KaniJob("value", lib, hs, deps={"smallvec": '"1.15"'}, items=items, trusted=KANI_TRUSTED, jobs=2, timeout=2400, per_harness_timeout=900)
+
+
+STAGE_INV = """        invariant
+            vp_i <= self.inputs.len(),
+            rc_rest_same(*self, *old(self)), use_4state == old(self).host.use_4state,
+            rest_same(self.host, old(self).host), self.host.ports@.len() == old(self).host.ports@.len(),
+            forall|i: int, j: int| 0 <= i < j < self.inputs@.len() ==> self.inputs@[i].0 != self.inputs@[j].0,
+            forall|j: int| 0 <= j < self.inputs@.len() ==> stage_ok(self.host, #[trigger] self.inputs@[j]),
+            forall|j: int| 0 <= j < vp_i ==> staged(self.host, #[trigger] self.inputs@[j]),
+            forall|p: int| 0 <= p < self.host.ports@.len() && !addressed(self.inputs@, p) ==> self.host.ports@[p] == old(self).host.ports@[p],
+        decreases self.inputs.len() - vp_i,
+"""
+
+STAGE_SPEC = """    requires
+        // every staged input addresses an input port of its width with well-formed buffers (add_port_role), each port at most once
+        forall|j: int| 0 <= j < old(self).inputs@.len() ==> stage_ok(old(self).host, #[trigger] old(self).inputs@[j]),
+        forall|i: int, j: int| 0 <= i < j < old(self).inputs@.len() ==> old(self).inputs@[i].0 != old(self).inputs@[j].0,
+    ensures
+        rc_rest_same(*final(self), *old(self)), rest_same(final(self).host, old(self).host),
+        final(self).host.ports@.len() == old(self).host.ports@.len(),
+        // every expression input ends with port.words == value words and port.mask_xz == value mask words (zero in a two-state run)
+        forall|j: int| 0 <= j < old(self).inputs@.len() ==> staged(final(self).host, #[trigger] old(self).inputs@[j]) && stage_ok(final(self).host, old(self).inputs@[j]),
+        // ports no input addresses are untouched
+        forall|p: int| 0 <= p < old(self).host.ports@.len() && !addressed(old(self).inputs@, p) ==> final(self).host.ports@[p] == old(self).host.ports@[p],
+"""
+
+DERIVES = ("Clone", "Debug", "Default", "Hash", "PartialEq", "Eq", "PartialOrd", "Ord", "Serialize", "Deserialize")
+
+
+def stage_inputs_items(ctx, res, vf, add):
+    """call-site glue: RuntimeComponent::stage_inputs (runtime.rs) with the real Value types of the analyzer; interpreter, BigUint and the
+    raw-pointer arms are outlined"""
+    a, r = ctx.src(A), ctx.src(R)
+    for kind, name in (("struct", "ValueU64"), ("struct", "ValueBigUint"), ("enum", "Value")):
+        it = a.item(kind, name)
+        it.strip_derive(*DERIVES)
+        add(it)
+    it = r.item("enum", "InputSource")
+    it.replace("enum InputSource", "pub enum InputSource", rule="V1 visibility only")
+    add(it)
+    it = r.item("struct", "RuntimeComponent")
+    it.sub(r"\n    (file_declared|inputs|outputs|fire_count|words_scratch|mask_scratch):", r"\n    pub \1:", count=6, rule="V1")
+    add(it)
+    vf.raw(ctx.unit_file("hostcopy", "spec_stage.rs"), "spec")
+
+    f = r.item("fn", "value_to_words_into")
+    f.replace("out.extend(x.payload.iter_u64_digits())", "vp_extend_digits(out, &x.payload)", rule="O17 BigUint digit iteration outlined")
+    f.spec("    ensures final(out)@ =~= fit(val_words(*value), nwords as int),")
+    add(f, "value_to_words_into")
+    f = r.item("fn", "value_to_mask_xz_into")
+    f.replace("out.extend(x.mask_xz.iter_u64_digits())", "vp_extend_digits(out, &x.mask_xz)", rule="O17 BigUint digit iteration outlined")
+    f.spec("    ensures final(out)@ =~= fit(val_mask(*value), nwords as int),")
+    add(f, "value_to_mask_xz_into")
+
+    st = r.item("fn", "stage_inputs", impl="RuntimeComponent")
+    if "is_xz" in st.orig:
+        # only if the call site consults Value::is_xz: the three real definitions of the analyzer
+        vf.raw("impl ValueU64 {", "impl")
+        f = a.item("fn", "is_xz", impl="ValueU64"); f.name_return("r"); f.spec("    ensures r == (self.mask_xz != 0),"); add(f, "ValueU64::is_xz")
+        vf.raw("}\nimpl ValueBigUint {", "impl")
+        f = a.item("fn", "is_xz", impl="ValueBigUint"); f.name_return("r")
+        f.replace("*self.mask_xz != BigUint::zero()", "vp_big_nonzero(&self.mask_xz)", rule="O17 BigUint comparison with zero outlined")
+        f.spec("    ensures r == !all_zero(digits(*self.mask_xz)),"); add(f, "ValueBigUint::is_xz")
+        vf.raw("}\nimpl Value {", "impl")
+        f = a.item("fn", "is_xz", impl="Value"); f.name_return("r"); f.spec("    ensures r == !all_zero(val_mask(*self)),")
+        f.at_start("    proof { assert(val_mask(*self).len() > 0 ==> val_mask(*self)[0] == val_mask(*self)[0]); if self is U64 { assert(val_mask(*self)[0] == self->U64_0.mask_xz); } }")
+        add(f, "Value::is_xz")
+        vf.raw("}", "impl")
+
+    vf.raw("impl RuntimeComponent {", "impl")
+    st.replace("for (idx, source, width) in &self.inputs {",
+               "let mut vp_i: usize = 0;\n        while vp_i < self.inputs.len() {\n            let (idx, source, width) = &self.inputs[vp_i];\n            vp_i += 1;",
+               rule="E7' `for x in &V { S }` -> `let mut k = 0; while k < V.len() { let x = &V[k]; k += 1; S }` (the invariant needs the position)")
+    st.sub(r"(InputSource::Direct(?:Scalar|Wide) \{[^}]*\} => )\{.*?\n                \}", r"\1{ vp_direct_copy(&mut self.host, *idx, use_4state); }", count=2, flags=re.S,
+           rule="O16 the two raw-pointer direct-copy arms (unsafe) outlined: they write only the buffers of host port idx")
+    st.spec(STAGE_SPEC)
+    st.at_start("    broadcast use lemma_fit_all_zero;")
+    add(st, "RuntimeComponent::stage_inputs")
+    vf.raw("}", "impl")
+    res.clauses["RuntimeComponent::stage_inputs"] = ("requires every staged input addresses a distinct well-formed input port of its width; ensures for every expression input: "
+        "port.words == the value's payload words and port.mask_xz == the value's X/Z mask words (all zero in a two-state run), zero-extended/truncated to words_for(width), "
+        "whichever of set_input / set_input_masked was chosen; unaddressed ports and all other fields untouched. Outlined: Expression::eval, BigUint digits, the unsafe direct-copy arms")
 
 
 MASK_GHOST = """    proof {
